@@ -152,8 +152,13 @@ def check_weighted(spec):
 
 
 WS = st.sampled_from([1, 2, 2, 3, 4])
-BAL = st.fixed_dictionaries({"counts": st.lists(st.integers(1, 7), min_size=2, max_size=6), "key": st.integers(0, 999),
-                             "bulk": st.sampled_from(["list", "numpy", "tensor"]), "spc": st.one_of(st.none(), st.integers(1, 21)),
+# label containers as datasets hand them out: lists, int64 arrays - and the narrow integer dtypes label files are stored in
+# (class id x dataset size exceeds the range of int8/uint8 for the larger layouts)
+BULK = st.sampled_from(["list", "numpy", "tensor", "numpy:uint8", "numpy:int8", "numpy:int16", "numpy:int32", "tensor:uint8",
+                        "tensor:int8", "tensor:int16", "tensor:int32"])
+COUNTS = st.one_of(st.lists(st.integers(1, 7), min_size=2, max_size=6), st.lists(st.integers(1, 12), min_size=5, max_size=12))
+BAL = st.fixed_dictionaries({"counts": COUNTS, "key": st.integers(0, 999),
+                             "bulk": BULK, "spc": st.one_of(st.none(), st.integers(1, 21)),
                              "shuffle": st.booleans(), "W": WS, "seed": st.integers(0, 2 ** 20), "epoch": st.integers(0, 50)})
 SEMI = st.fixed_dictionaries({"n_labeled": st.integers(1, 12), "n_unlabeled": st.integers(1, 12), "key": st.integers(0, 999),
                               "bulk": st.sampled_from(["list", "numpy", "tensor"]), "L": st.integers(1, 4), "U": st.integers(1, 4), "W": WS,
